@@ -147,7 +147,10 @@ class TemplateCodeGenerator(NodeTransformer):
             r'^(\s*)\.\.\.$',
             lambda m: "\n".join(
                 (m.group(1) + "#" + line)
-                for line in next(comments).replace("\r", "\n").split("\n")
+                # (a lone surrogate cannot be part of the source text)
+                for line in next(comments).encode(
+                    'utf-8', 'backslashreplace').decode('utf-8').replace(
+                        "\r", "\n").split("\n")
             ),
             code,
             flags=re.MULTILINE
